@@ -349,12 +349,12 @@ class SgzConverter(SgzReader):
             inline_bytes = (self.shape_pad[2] * self.shape_pad[1] * self.rate) // 8
             for i in range(padded_shape[0] // new_blockshape[0]):
                 if (i + 1) * new_blockshape[0] > self.n_ilines:
-                    i_count = (self.n_ilines % new_blockshape[0] + 4) // 4
+                    i_count = (self.n_ilines % new_blockshape[0] + 3) // 4
                 else:
                     i_count = 16
                 for x in range(padded_shape[1] // new_blockshape[1]):
                     if (x + 1) * new_blockshape[1] > self.n_xlines:
-                        x_count = (self.n_xlines % new_blockshape[1] + 4) // 4
+                        x_count = (self.n_xlines % new_blockshape[1] + 3) // 4
                     else:
                         x_count = 16
                     buffer = bytearray(self.chunk_bytes*16*16)
